@@ -208,7 +208,7 @@ for _nm, _shape, _tier in (("two_sets_tail", "count 2: template flowset(6) + opt
                           ("unknown_second", "count 2: template flowset then data flowset for an undefined id", "quick"),
                           ("truncated_second", "count 2: second flowset announces 40 bytes, 6 present", "thorough"),
                           ("count0_tail", "count 0 + 6 trailing bytes", "thorough")):
-    reg(["C02", "C04", "C07", "C11", "C14", "C01"], H("p::p_v9_" + _nm, unwind=5, timeout=1800, mem_gb=24, tier=_tier,
+    reg(["C02", "C04", "C07", "C11", "C14", "C01"], H("p::p_v9_" + _nm, unwind=5, timeout=1800, mem_gb=36, tier=_tier,
         desc="V9::parse on [%s]: header as sent, first `count` flowsets (or until the buffer ends), consumed = 20 + sum(length), any failing flowset fails the packet" % _shape,
         bounds={"shape": _shape + " (written)", "symbolic": "header words, padding bytes"}, assumptions=[_S9]))
 for _nm, _shape, _tier in (("two_templates_tail", "2 template sets + 3 bytes after the message", "quick"),
